@@ -536,8 +536,8 @@ spifopt_parse(int argc, char *argv[])
             /* NEXT_ARG(); */
             break;
         } else if (opt == SPIF_CHARPTR(argv[i])) {
-            /* If it's not an option, skip it. */
-            if (*opt != '-') {
+            /* If it's not an option (a lone "-" is not one either), skip it. */
+            if ((*opt != '-') || !(*(opt + 1))) {
                 NEXT_ARG();
             } else {
                 opt++;
